@@ -56,7 +56,9 @@ Conforms(e, isDtx) ==
            THEN \E sp \in GenSplits(D) : LET r == GenPacket(mctr, sp, AllFalse(Len(sp))) IN r.ctr = e.c /\ r.all = isDtx
            ELSE \E sp \in GenSplits(D) : \E acts \in [1..Len(sp) -> BOOLEAN] :
                    LET r == GenPacket(mctr, sp, acts) IN r.ctr = e.c /\ (r.all = isDtx)
-    ELSE IF cfg.ch = 1 /\ e.md # 1002
+    \* (with in-band FEC on, the speech layer's counter does not advance once per coded frame -
+    \*  observed on the pinned tree - so the step-by-step model is bound only with FEC off)
+    ELSE IF cfg.ch = 1 /\ e.md # 1002 /\ cfg.fec = 0
       THEN LET n == SilkFrames(D) IN
            \E acts \in [1..n -> BOOLEAN] : LET r == SilkPacket(mctr, n, acts) IN r.ctr = e.sc /\ (r.all = isDtx)
       ELSE TRUE
